@@ -15,7 +15,7 @@ wraps it in `verus! { ... }`, and overlays contract text from an overlay file:
 
 The only edits to copied text are the rewrite rules documented in DESIGN.md section 4.2
 (R1 `|_|`->`|_x|`, R2 drop docs/#[inline]/#[doc]/#[test] items, R3 peek-loop
-normalisation, R5 named return value).  Every rule application is recorded in the
+normalisation, R5 named return value, R6 `.peekable()`, R7 `for P in &E`, R8 `.iter().filter_map(..).collect()`).  Every rule application is recorded in the
 returned manifest so that the evidence can list exactly what differs from /repo.
 """
 import hashlib
@@ -314,6 +314,7 @@ class Assembler:
         self.features = set(cfg_features)
         self.manifest = {'functions': [], 'rules': [], 'external': [], 'dropped': [], 'files': []}
         self.errors = []
+        self.degraded = []
         self.module_head = '#[allow(unused_imports)] use vstd::prelude::*;\n#[allow(unused_imports)] use crate::vspec::*;\n'
 
     # ---- helpers -----------------------------------------------------------------
@@ -351,8 +352,30 @@ class Assembler:
 
     # ---- function emission ---------------------------------------------------------
     def emit_fn(self, src, toks, all_toks, it, rel, header):
+        """Emit one function.  If a hint anchor / loop ordinal / rewrite shape of THIS function is lost (its body was
+        restructured), the function is emitted with its contract only, as external_body: its own obligations are
+        UNDECIDED for this run (never a pass, never an alarm), while every other function is still verified."""
+        n_err = len(self.errors)
+        n_fn = len(self.manifest['functions'])
+        n_rules = len(self.manifest['rules'])
+        out = self._emit_fn(src, toks, all_toks, it, rel, header, None)
+        if len(self.errors) > n_err:
+            key = (rel, header or '', it.name)
+            cfg = self.ov.fns.get(key)
+            if cfg is not None and cfg['mode'] != 'external_body':
+                errs = self.errors[n_err:]
+                del self.errors[n_err:]
+                del self.manifest['functions'][n_fn:]
+                del self.manifest['rules'][n_rules:]
+                degraded = dict(cfg)
+                degraded.update({'mode': 'external_body', 'ats': [], 'loops': {}, 'after_loops': {}, 'r7': []})
+                out = self._emit_fn(src, toks, all_toks, it, rel, header, degraded)
+                self.degraded.append({'file': rel, 'header': header or '', 'fn': it.name, 'errors': errs})
+        return out
+
+    def _emit_fn(self, src, toks, all_toks, it, rel, header, cfg_override):
         key = (rel, header or '', it.name)
-        cfg = self.ov.fns.get(key)
+        cfg = cfg_override or self.ov.fns.get(key)
         attrs = self._filter_attrs(src, it, rel, it.name)
         qual = (header + ' :: ' if header else '') + it.name
         if cfg is None:
@@ -487,6 +510,42 @@ class Assembler:
                         rules.append('R6')
                     else:
                         self.errors.append('R6: unsupported .peekable() shape in %s' % qual)
+        # R8 `= RECV.iter().filter_map(CLOSURE).collect::<Result<Vec<_>, _>>()` -> `= vf_filter_map_collect(RECV, CLOSURE)`
+        # (Verus has no specification for iterator adapter chains; the helper is the same chain behind an ASSUMED contract)
+        if cfg['mode'] != 'external_body':
+            j = it.body_open
+            while j < it.body_close - 7:
+                tx = [toks[j + d].text for d in range(7)]
+                if tx == ['.', 'iter', '(', ')', '.', 'filter_map', '(']:
+                    c = match_close(toks, j + 6)
+                    ok = c is not None and [toks[c + d].text for d in (1, 2)] == ['.', 'collect'] and toks[c + 3].text in ('::', ':')
+                    e = None
+                    if ok:
+                        e = c + 3
+                        while e < it.body_close and toks[e].text != '(':
+                            e += 1
+                        turbofish = ''.join(toks[x].text for x in range(c + 3, e)).replace(' ', '')
+                        ok = toks[e + 1].text == ')' and turbofish == '::<Result<Vec<_>,_>>'
+                    q = j - 1
+                    depth = 0
+                    while ok and q > it.body_open:
+                        t2 = toks[q]
+                        if t2.kind == 'punct' and t2.text in ')]}':
+                            depth += 1
+                        elif t2.kind == 'punct' and t2.text in '([{':
+                            depth -= 1
+                        elif t2.text == '=' and depth == 0 and t2.kind == 'punct':
+                            break
+                        q -= 1
+                    if ok and toks[q].text == '=':
+                        edits.append((toks[q + 1].start, 0, 'vf_filter_map_collect('))
+                        edits.append((toks[j].start, toks[j + 6].end - toks[j].start, ', '))
+                        edits.append((toks[c + 1].start, toks[e + 1].end - toks[c + 1].start, ''))
+                        rules.append('R8')
+                        j = e
+                    else:
+                        self.errors.append('R8: unsupported .iter().filter_map() shape in %s' % qual)
+                j += 1
         # R1 closure `|_|`
         for j in range(it.body_open, it.body_close - 2):
             if toks[j].text == '|' and toks[j + 1].text == '_' and toks[j + 2].text == '|' and toks[j + 1].kind == 'ident':
